@@ -33,6 +33,7 @@ var wireRoots = []string{
 
 // E3 is the shared result of the taint analysis over a set of roots.
 type E3 struct {
+	cipherDepth int
 	p      *Prog
 	roots  []*ssa.Function
 	region map[*ssa.Function]bool
@@ -1674,8 +1675,18 @@ func (e *E3) paramFromCipherSuite(f *Flow, fn *ssa.Function, pr *ssa.Parameter) 
 			return false
 		}
 		sites++
-		pv := f.matcherFor(ed.Caller).Prov(call.Common().Args[pi])
+		arg := call.Common().Args[pi]
+		pv := f.matcherFor(ed.Caller).Prov(arg)
 		if !pv.Has("field:fdo/kex.CipherSuite.EncryptAlg") && !pv.Has("field:fdo/kex.CipherSuite.MacAlg") {
+			// handed on from the caller's own parameter: follow it (bounded)
+			if p2, ok := stripConv(arg).(*ssa.Parameter); ok && ed.Caller != fn && e.cipherDepth < 3 {
+				e.cipherDepth++
+				ok2 := e.paramFromCipherSuite(f, ed.Caller, p2)
+				e.cipherDepth--
+				if ok2 {
+					continue
+				}
+			}
 			return false
 		}
 	}
